@@ -854,7 +854,8 @@ Section Server.
     | _ => False
     end.
   Proof.
-    cbn [sstep]. destruct (d_ev (s_conn s)) as [|ev q] eqn:Eq.
+    cbn [sstep]. destruct (s_live s); cbn [negb]; [|intros X; injection X as <- <-; auto].
+    destruct (d_ev (s_conn s)) as [|ev q] eqn:Eq.
     - intros X. injection X as <- <-. auto.
     - destruct (att_find (e_id ev) (s_att s)) as [ch|] eqn:Ef.
       + destruct (Nat.ltb (length ch) defaultServerPunchEventBuffer).
@@ -929,13 +930,15 @@ Section Server.
 
   Lemma sstep_total s a : exists s' o, sstep H is_stun s a = Ok (s', o).
   Proof.
-    destruct a as [id m|id| |a|id]; cbn [sstep].
+    destruct a as [id m|id| | |a|id]; cbn [sstep].
     - destruct (att_find id (s_att s)); [eauto|].
       destruct (step_total H is_stun H_nonempty (s_conn s) (AAdd id m)) as (c & o & ->). cbn [bind fst snd].
       destruct o as [[|]| | | | | |]; eauto.
     - destruct (step_total H is_stun H_nonempty (s_conn s) (ARemove id)) as (c & o & ->). cbn [bind fst snd]. eauto.
-    - destruct (d_ev (s_conn s)); [eauto|]. destruct (att_find _ _); [|eauto].
+    - destruct (negb (s_live s)); [eauto|].
+      destruct (d_ev (s_conn s)); [eauto|]. destruct (att_find _ _); [|eauto].
       destruct (Nat.ltb _ _); eauto.
+    - eauto.
     - destruct (step_total H is_stun H_nonempty (s_conn s) a) as (c & o & ->). cbn [bind fst snd]. eauto.
     - destruct (att_find id (s_att s)) as [[|e q]|]; eauto.
   Qed.
@@ -943,16 +946,18 @@ Section Server.
   Lemma sstep_nodup s a s' o : sstep H is_stun s a = Ok (s', o) ->
     keys_nodup (d_reg (s_conn s)) -> keys_nodup (d_reg (s_conn s')).
   Proof.
-    intros E N. destruct a as [id m|id| |a|id]; cbn [sstep] in E.
+    intros E N. destruct a as [id m|id| | |a|id]; cbn [sstep] in E.
     - destruct (att_find id (s_att s)); [injection E as <- <-; auto|].
       destruct (step H is_stun (s_conn s) (AAdd id m)) as [[c o1]|e|n] eqn:Ec; cbn [bind fst snd] in E; try discriminate.
       destruct (step_registry H is_stun H_nonempty _ _ _ _ [] Ec N) as (N1 & _).
       destruct o1 as [[|]| | | | | |]; injection E as <- <-; exact N1.
     - destruct (step H is_stun (s_conn s) (ARemove id)) as [[c o1]|e|n] eqn:Ec; cbn [bind fst snd] in E; try discriminate.
       destruct (step_registry H is_stun H_nonempty _ _ _ _ [] Ec N) as (N1 & _). injection E as <- <-. exact N1.
-    - destruct (d_ev (s_conn s)); [injection E as <- <-; auto|]. destruct (att_find _ _).
+    - destruct (negb (s_live s)); [injection E as <- <-; auto|].
+      destruct (d_ev (s_conn s)); [injection E as <- <-; auto|]. destruct (att_find _ _).
       + destruct (Nat.ltb _ _); injection E as <- <-; exact N.
       + injection E as <- <-. exact N.
+    - injection E as <- <-. exact N.
     - destruct (step H is_stun (s_conn s) a) as [[c o1]|e|n] eqn:Ec; cbn [bind fst snd] in E; try discriminate.
       destruct (step_registry H is_stun H_nonempty _ _ _ _ [] Ec N) as (N1 & _). injection E as <- <-. exact N1.
     - destruct (att_find id (s_att s)) as [[|e q]|]; injection E as <- <-; exact N.
@@ -969,29 +974,31 @@ Section Server.
       do 2 eexists. repeat split; auto. cbn [length]. lia.
   Qed.
 
-  (* Respond from registration to return, in any history (any state before, anything happening in
-     between): the run never fails; when it has returned, the attempt id is in neither registry, a
-     datagram that decodes under no other registered attempt - in particular a late or retransmitted
-     punch packet of the finished attempt - is handed to the reader unchanged and changes nothing,
-     and the same id can be registered again *)
-  Lemma respond_done s0 id m mid :
-    keys_nodup (d_reg (s_conn s0)) ->
-    exists s outs, srun H is_stun s0 (respond_trace id m mid) = Ok (s, outs) /\
-      att_find id (s_att s) = None /\ reg_find id (d_reg (s_conn s)) = None /\
-      (forall p from pick, is_stun p = false ->
-         (forall id' m' ty pad, In (id', m') (d_reg (s_conn s)) -> decode_punch H p m' = Ok (ty, pad) -> id' = id) ->
-         sstep H is_stun s (SConn (ARecv p from pick)) = Ok (s, SOConn (OPass p from))) /\
-      (forall m', id <> [] -> is_ok (decode_meta m') = true ->
-         exists s', sstep H is_stun s (SAdd id m') = Ok (s', SOAdd true)).
+  (* the dispatcher's exit on the lifetime context touches neither registry nor any queue *)
+  Lemma server_stop s s' o : sstep H is_stun s SStop = Ok (s', o) ->
+    s_conn s' = s_conn s /\ s_att s' = s_att s /\ s_live s' = false.
+  Proof. cbn [sstep]. intros X. injection X as <- <-. auto. Qed.
+
+  Lemma reg_remove_absent id (r : registry) : reg_find id r = None -> reg_remove id r = r.
   Proof.
-    intros N. destruct (srun_total (respond_trace id m mid) s0 N) as (s & outs & E & Ns & _).
-    exists s, outs. split; [exact E|].
-    unfold respond_trace in E. change (SAdd id m :: mid ++ [SRemove id]) with ((SAdd id m :: mid) ++ [SRemove id]) in E.
-    apply srun_app in E. destruct E as (s1 & o1 & o2 & _ & E2 & _).
-    cbn [srun] in E2. destruct (sstep H is_stun s1 (SRemove id)) as [[s2 o]|e|n] eqn:Er; cbn [bind fst snd] in E2; try discriminate.
-    assert (s2 = s) by congruence. subst s2.
-    destruct (server_remove _ _ _ _ Er) as (Fa & Fr & _).
-    split; [exact Fa|]. split; [exact Fr|]. split.
+    unfold reg_find, reg_remove. induction r as [|[i m] r IH]; cbn [filter find fst]; auto.
+    destruct (bytes_eq i id) eqn:E; cbn [negb]; [discriminate|]. intros F. now rewrite IH.
+  Qed.
+
+  (* what "id is in neither registry" gives: the conn's table is the table without id, a datagram
+     that decodes under no other registered attempt goes to the reader unchanged and changes
+     nothing, and the id can be registered *)
+  Lemma unregistered_spec s id :
+    keys_nodup (d_reg (s_conn s)) ->
+    att_find id (s_att s) = None -> reg_find id (d_reg (s_conn s)) = None ->
+    reg_remove id (d_reg (s_conn s)) = d_reg (s_conn s) /\
+    (forall p from pick, is_stun p = false ->
+       (forall id' m' ty pad, In (id', m') (d_reg (s_conn s)) -> decode_punch H p m' = Ok (ty, pad) -> id' = id) ->
+       sstep H is_stun s (SConn (ARecv p from pick)) = Ok (s, SOConn (OPass p from))) /\
+    (forall m', id <> [] -> is_ok (decode_meta m') = true ->
+       exists s', sstep H is_stun s (SAdd id m') = Ok (s', SOAdd true)).
+  Proof.
+    intros Ns Fa Fr. split; [now apply reg_remove_absent|]. split.
     - intros p from pick Es Only. cbn [sstep].
       destruct (recv_spec H is_stun H_nonempty (s_conn s) p from pick) as (c & o' & E' & _ & _ & Cases). rewrite E'.
       destruct Cases as [(X & _) | [(_ & ap & ev & m0 & _ & _ & Hin & D & _) | (_ & _ & -> & ->)]]; [congruence| |].
@@ -999,6 +1006,86 @@ Section Server.
         apply in_find in Hin; auto. congruence.
       + cbn [bind fst snd]. now destruct s.
     - intros m' Ne Hm. now apply server_add_fresh.
+  Qed.
+
+  (* any history that ends with removeAttempt id (Respond that got as far as registering: from any
+     state, whatever its arguments, whatever happens while it waits - including the puncher's
+     lifetime context being cancelled - and through whichever case of the select it leaves) *)
+  Lemma respond_removes s0 a w mid :
+    keys_nodup (d_reg (s_conn s0)) ->
+    exists s outs, srun H is_stun s0 (respond_trace a (RoWait w) mid) = Ok (s, outs) /\
+      att_find (ra_id a) (s_att s) = None /\ reg_find (ra_id a) (d_reg (s_conn s)) = None /\
+      reg_remove (ra_id a) (d_reg (s_conn s)) = d_reg (s_conn s) /\
+      (forall p from pick, is_stun p = false ->
+         (forall id' m' ty pad, In (id', m') (d_reg (s_conn s)) -> decode_punch H p m' = Ok (ty, pad) -> id' = ra_id a) ->
+         sstep H is_stun s (SConn (ARecv p from pick)) = Ok (s, SOConn (OPass p from))) /\
+      (forall m', ra_id a <> [] -> is_ok (decode_meta m') = true ->
+         exists s', sstep H is_stun s (SAdd (ra_id a) m') = Ok (s', SOAdd true)).
+  Proof.
+    intros N. destruct (srun_total (respond_trace a (RoWait w) mid) s0 N) as (s & outs & E & Ns & _).
+    exists s, outs. split; [exact E|].
+    cbn [respond_trace] in E.
+    set (tk := match w with WEvent => [STake (ra_id a)] | _ => [] end) in E.
+    replace (SAdd (ra_id a) (ra_meta a) :: mid ++ tk ++ [SRemove (ra_id a)])
+      with ((SAdd (ra_id a) (ra_meta a) :: mid ++ tk) ++ [SRemove (ra_id a)]) in E
+      by (cbn [app]; now rewrite <- app_assoc).
+    apply srun_app in E. destruct E as (s1 & o1 & o2 & _ & E2 & _).
+    cbn [srun] in E2. destruct (sstep H is_stun s1 (SRemove (ra_id a))) as [[s2 o]|e|n] eqn:Er; cbn [bind fst snd] in E2; try discriminate.
+    assert (s2 = s) by congruence. subst s2.
+    destruct (server_remove _ _ _ _ Er) as (Fa & Fr & _).
+    split; [exact Fa|]. split; [exact Fr|]. now apply unregistered_spec.
+  Qed.
+
+  (* the outcome type covers every way the call can go *)
+  Lemma respond_outcome_total s a w :
+    exists o, respond_can s a o /\ (forall w', o = RoWait w' -> w' = w).
+  Proof.
+    destruct (respond_precheck a) as [[e|]|e|n] eqn:P.
+    - exists (RoErr e). split; [exact P|discriminate].
+    - destruct (att_find (ra_id a) (s_att s)) eqn:F.
+      + exists RoDup. split; [|discriminate]. cbn [respond_can]. split; auto. congruence.
+      + exists (RoWait w). split; [cbn [respond_can]; auto|]. intros w' X. congruence.
+    - exfalso. unfold respond_precheck in P. destruct (ra_id a); [discriminate|].
+      destruct (decode_meta (ra_meta a)); try discriminate.
+      repeat match type of P with context [if ?c then _ else _] => destruct c end; discriminate.
+    - exfalso. unfold respond_precheck in P. destruct (ra_id a); [discriminate|].
+      destruct (decode_meta (ra_meta a)) eqn:D; try discriminate.
+      + repeat match type of P with context [if ?c then _ else _] => destruct c end; discriminate.
+      + eapply decode_meta_no_panic; eauto.
+  Qed.
+
+  (* Respond, every outcome, in any history: the run never fails.  The exits before the
+     registration (each validation error) and the duplicate-id exit leave the state exactly as it
+     was - nothing is added and nothing is removed, so the attempt of another Respond in flight
+     under the same id stays registered.  In every other case, and whenever the id was not in use
+     before the call, once Respond has returned the id is in neither registry, the conn's table is
+     the table without it, a datagram that decodes under no other registered attempt - a late or
+     retransmitted punch packet of the finished attempt - is handed to the reader unchanged and
+     changes nothing, and the same id can be registered again *)
+  Lemma respond_done s0 a o mid :
+    keys_nodup (d_reg (s_conn s0)) -> respond_can s0 a o ->
+    exists s outs, srun H is_stun s0 (respond_trace a o mid) = Ok (s, outs) /\
+      (match o with RoWait _ => True | _ => s = s0 end) /\
+      ((match o with
+        | RoWait _ => True
+        | _ => att_find (ra_id a) (s_att s0) = None /\ reg_find (ra_id a) (d_reg (s_conn s0)) = None
+        end) ->
+       att_find (ra_id a) (s_att s) = None /\ reg_find (ra_id a) (d_reg (s_conn s)) = None /\
+       reg_remove (ra_id a) (d_reg (s_conn s)) = d_reg (s_conn s) /\
+       (forall p from pick, is_stun p = false ->
+          (forall id' m' ty pad, In (id', m') (d_reg (s_conn s)) -> decode_punch H p m' = Ok (ty, pad) -> id' = ra_id a) ->
+          sstep H is_stun s (SConn (ARecv p from pick)) = Ok (s, SOConn (OPass p from))) /\
+       (forall m', ra_id a <> [] -> is_ok (decode_meta m') = true ->
+          exists s', sstep H is_stun s (SAdd (ra_id a) m') = Ok (s', SOAdd true))).
+  Proof.
+    intros N Can. destruct o as [e| |w].
+    - exists s0, []. cbn [respond_trace srun]. split; [reflexivity|]. split; [reflexivity|].
+      intros (Fa & Fr). split; [exact Fa|]. split; [exact Fr|]. now apply unregistered_spec.
+    - destruct Can as (_ & Dup). destruct (att_find (ra_id a) (s_att s0)) as [ch|] eqn:F; [|congruence].
+      exists s0, [SOAdd false]. cbn [respond_trace srun sstep]. rewrite F. cbn [bind fst snd].
+      split; [reflexivity|]. split; [reflexivity|]. intros (Fa & _). discriminate Fa.
+    - destruct (respond_removes s0 a w mid N) as (s & outs & E & R).
+      exists s, outs. split; [exact E|]. split; [exact I|]. intros _. exact R.
   Qed.
 End Server.
 
@@ -1071,11 +1158,11 @@ Definition ex_id : list byte := [x61;x31;x62;x32].   (* "a1b2" *)
 Definition ex_marker : list byte := [x6d;x61;x72;x6b;x65;x72].
 
 Example ex_respond :
-  match srun256 stun_hdr_ok (mkS (d_new 4) [])
+  match srun256 stun_hdr_ok (mkS (d_new 4) [] true)
           (SAdd ex_id (ex_meta 2) ::
-           respond_trace ex_ID (ex_meta 1)
+           respond_trace (mkRA ex_ID (ex_meta 1) 1 0 0) (RoWait WEvent)
              [SAdd ex_ID (ex_meta 3);                          (* duplicate while in flight *)
-              SConn (ARecv (ex_pkt 1 1 5) ex_from pick0); SDispatch; STake ex_ID] ++
+              SConn (ARecv (ex_pkt 1 1 5) ex_from pick0); SDispatch] ++
            [SConn (ARecv (ex_pkt 1 1 9) ex_from pick0);        (* late hello: reaches the reader *)
             SConn (ARecv ex_marker ex_from pick0);
             SConn (ARecv (ex_pkt 2 1 0) ex_from pick0); SDispatch; STake ex_id;   (* "a1b2" still registered *)
@@ -1094,6 +1181,59 @@ Example ex_respond :
   | _ => False
   end.
 Proof. vm_compute. split; reflexivity. Qed.
+
+(* Respond, the other outcomes.  (1) The puncher's lifetime context is cancelled while Respond is in
+   flight (SStop): the hello that arrives afterwards is still withheld (the attempt is registered)
+   but no longer forwarded; Respond leaves by its timeout, the deferred removeAttempt runs: the
+   retransmitted hello and a marker reach the reader and the id is accepted again.  (2) While a
+   Respond is in flight a second call with the same id takes the duplicate exit and changes
+   nothing: the first attempt's packets are still withheld.  (3) Each validation exit is taken
+   by concrete arguments and contributes nothing to the history. *)
+Definition ex_args : rargs := mkRA ex_ID (ex_meta 1) 2 0 0.
+
+Example ex_respond_stop :
+  match srun256 stun_hdr_ok (mkS (d_new 4) [] true)
+          (respond_trace ex_args (RoWait WTimeout)
+             [SStop; SConn (ARecv (ex_pkt 1 1 5) ex_from pick0); SDispatch; STake ex_ID] ++
+           [SConn (ARecv (ex_pkt 1 1 9) ex_from pick0);
+            SConn (ARecv ex_marker ex_from pick0);
+            SAdd ex_ID (ex_meta 1)]) with
+  | Ok (s, outs) =>
+      outs = [SOAdd true; SONone;
+              SOConn (OPunch (mkEv ex_ID ([x0a;x00;x00;x01], 4433%Z) 1 5)); SORouted None; SOTake None;
+              SONone;
+              SOConn (OPass (ex_pkt 1 1 9) ex_from); SOConn (OPass ex_marker ex_from);
+              SOAdd true] /\
+      s_live s = false
+  | _ => False
+  end.
+Proof. vm_compute. split; reflexivity. Qed.
+
+Example ex_respond_dup :
+  match srun256 stun_hdr_ok (mkS (d_new 4) [] true) [SAdd ex_ID (ex_meta 1)] with
+  | Ok (s1, _) =>
+      respond_can s1 ex_args RoDup /\
+      match srun256 stun_hdr_ok s1
+              (respond_trace ex_args RoDup [] ++ [SConn (ARecv (ex_pkt 1 1 5) ex_from pick0)]) with
+      | Ok (s2, outs) =>
+          outs = [SOAdd false; SOConn (OPunch (mkEv ex_ID ([x0a;x00;x00;x01], 4433%Z) 1 5))] /\
+          map fst (d_reg (s_conn s2)) = [ex_ID] /\ map fst (s_att s2) = [ex_ID]
+      | _ => False
+      end
+  | _ => False
+  end.
+Proof. vm_compute. repeat split; discriminate. Qed.
+
+Example ex_respond_exits :
+  respond_precheck (mkRA [] (ex_meta 1) 2 0 0) = Ok (Some REId) /\
+  respond_precheck (mkRA ex_ID (mkMeta [x7a; x7a] (m_obfs (ex_meta 1))) 2 0 0) = Ok (Some REMeta) /\
+  respond_precheck (mkRA ex_ID (ex_meta 1) 0 0 0) = Ok (Some RECand) /\
+  respond_precheck (mkRA ex_ID (ex_meta 1) 2 (-1) 0) = Ok (Some RETimeout) /\
+  respond_precheck (mkRA ex_ID (ex_meta 1) 2 0 (-5)) = Ok (Some REInterval) /\
+  respond_precheck ex_args = Ok None /\
+  respond_can (mkS (d_new 4) [] true) ex_args (RoWait WCancel) /\
+  respond_trace (mkRA ex_ID (ex_meta 1) 0 0 0) (RoErr RECand) [SStop] = [].
+Proof. vm_compute. repeat split; reflexivity. Qed.
 
 (* codec: both types, padding 0 and 1024; cross-attempt and damaged packets are rejected *)
 Example ex_codec :
